@@ -29,6 +29,7 @@
 #define REF_BE_NULL 0
 #define REF_BE_XOR 3
 #define REF_BE_ISAL_VAND 4
+#define REF_BE_SHSS 5
 #define REF_BE_RSVAND 6
 #define REF_BE_ISAL_CAUCHY 7
 #define REF_CT_NONE 1
@@ -77,6 +78,7 @@ uint32_t crc_legacy(const uint8_t *p, size_t n);   /* historical sign-extending 
 /* word size in bytes for the alignment unit: rs_vand 2, xor 4, null 4, isa-l 1 */
 extern int ref_isal_word_bits;
 int ref_word_bytes(int backend);
+int ref_backend_metadata_bytes(int backend);   /* per-fragment trailer owned by the backend (shss: 32), 0 otherwise */
 uint64_t ref_aligned_size(int backend, int k, uint64_t len);
 uint64_t ref_payload_size(int backend, int k, uint64_t len);
 
